@@ -166,10 +166,22 @@ func (x *Exec) ceval(env *CEnv, e CExpr, want string) Term {
 		i := x.ceval(env, e.I, "")
 		si := x.d.sorts[b.Sort]
 		if si != nil && si.Kind == "list" {
-			return tApp(si.Elem, "nth_"+b.Sort, b, i)
+			r := tApp(si.Elem, "nth_"+b.Sort, b, i)
+			if b.Ty != nil {
+				if sl, ok := types.Unalias(b.Ty).Underlying().(*types.Slice); ok {
+					r.Ty = sl.Elem()
+				}
+			}
+			return r
 		}
 		if si != nil && si.Kind == "array" {
-			return tSelect(b, i, si.Elem)
+			r := tSelect(b, i, si.Elem)
+			if b.Ty != nil {
+				if m, ok := types.Unalias(b.Ty).Underlying().(*types.Map); ok {
+					r.Ty = m.Elem()
+				}
+			}
+			return r
 		}
 		x.cfail(env, "cannot index sort %s", b.Sort)
 	case CCall:
@@ -530,6 +542,21 @@ func (x *Exec) ccall(env *CEnv, e CCall, want string) Term {
 			x.cfail(env, "%s(%s): not a channel (type %v)", e.Fn, ch.S, ch.Ty)
 		}
 	}
+	// ghost fields of structs and predicate macros
+	if t, ok := x.ghostFieldRead(env, e); ok {
+		return t
+	}
+	if t, ok := x.predCall(env, e); ok {
+		return t
+	}
+	switch e.Fn {
+	case "alloc":
+		r := x.ceval(env, e.Args[0], "Ref")
+		return x.isAlloc(env.st, r)
+	case "pooled":
+		r := x.ceval(env, e.Args[0], "Ref")
+		return tSelect(x.heapMap(env.st, "Pooled", "Bool"), r, "Bool")
+	}
 	// ghost state of interfaces: view(x), done(x) ...
 	if t, ok := x.ifaceState(env, e); ok {
 		return t
@@ -859,7 +886,7 @@ func init() {
 				ai := x.listKind(env, acc, "tol")
 				l = x.ceval(env, e.Args[1], x.d.ListOf(ai.Elem))
 			}
-			x.d.instantiate("TraceOfList", map[string]string{"T": acc.Sort, "L": l.Sort})
+			x.d.instantiate("TraceOfList", map[string]string{"T": acc.Sort, "L": l.Sort, "E": x.d.sorts[l.Sort].Elem})
 			return tApp(acc.Sort, "tol_"+acc.Sort, acc, l)
 		},
 		"tolist": func(x *Exec, env *CEnv, e CCall, want string) Term {
